@@ -343,16 +343,21 @@ class Ctx:
             self.samples.append(s)
 
     def violation(self, site, failure_class, case, detail="", kind="concrete", broken=None):
-        """record a violation; deduplicated on (site, failure_class)"""
+        """record a violation; deduplicated on (site, failure_class, covered-by-a-known-finding?) — a case that a
+        known-findings entry covers never absorbs one that it does not cover (and vice versa)"""
+        cand = dict(kind=kind, site=site, failure_class=failure_class, case=case, detail=detail)
+        if not hasattr(self, "_known"):
+            self._known = [k for k in load_known() if k["property"] == self.prop]
+        listed = any(_matches(k, cand) for k in self._known) if self._known else False
         for v in self.violations:
-            if v["site"] == site and v["failure_class"] == failure_class and v["kind"] == kind:
+            if v["site"] == site and v["failure_class"] == failure_class and v["kind"] == kind and v.get("listed", False) == listed:
                 v["count"] += 1
                 # keep the smallest witness
                 if len(json.dumps(case, default=repr)) < len(json.dumps(v["case"], default=repr)):
                     v["case"], v["detail"] = case, detail
                 return
         self.violations.append(dict(kind=kind, site=site, failure_class=failure_class, case=case, detail=detail,
-                                    broken=broken or [], count=1))
+                                    broken=broken or [], count=1, listed=listed))
 
 
 def _matches(k, v):
